@@ -162,6 +162,9 @@ PROPS['C11'] = {
             ('filters__quotientfilter.rs', 'c11_qf_table_sizes', 'bounded((bq,br)=(3,5))'),
             ('countminsketch.rs', 'c02_cms_add_u8_2x3', 'bounded((w,d)=(2,3)): table.len()==w*d before and after add'),
             ('tdigest.rs', 'c16_td_merge_1_1', 'bounded(1 centroid + 1 backlog; adversarial scale function): merge empties the backlog, never creates centroids, and hands the scale function ranks in [0,1] (weights normalised by the total weight)'),
+            ('tdigest.rs', 'c11_td_backlog_bounded', 'bounded(max_backlog_size 1, <= 1 pending entry)'),
+            ('tdigest.rs', 'c11_td_backlog_bounded_mb0', 'bounded(max_backlog_size 0, two inserts): every insert merges at once'),
+            ('reservoirsampling.rs', 'c18_reservoir_extend_after_fillup', 'bounded(k=1, one concrete history): extend past fill-up keeps the allocation'),
         ],
         'thorough': [
             ('helpers.rs', 'intvector_stub_set_get', 'bounded(2 blocks): cross-check of the Verus IntVector stub against succinct'),
@@ -240,6 +243,7 @@ PROPS['C18'] = {
     'kani': {'quick': [('reservoirsampling.rs', 'c18_reservoir_all_zero_rng_k1', 'bounded(k=1, 8 adds, all-zero RNG words; real rand + real f64 gap code)'),
                        ('reservoirsampling.rs', 'c18_reservoir_all_zero_rng_k2', 'bounded(k=2, 12 adds, all-zero RNG words; real rand + real f64 gap code)'),
                        ('reservoirsampling.rs', 'c18_reservoir_extend_short_iter', 'bounded(k=3, iterator of <= 2 items): Extend::extend'),
+                       ('reservoirsampling.rs', 'c18_reservoir_extend_after_fillup', 'bounded(k=1, one concrete history): Extend::extend on a sampler past fill-up'),
                        ('reservoirsampling.rs', 'c19_reservoir_clone_mid_fillup', 'bounded(k=4, one concrete history): clone during fill-up')], 'thorough': []},
     'explanation': 'Verus proof for all k >= 1, all i, every RNG behaviour: add() pushes while i < k, afterwards leaves the reservoir or replaces exactly one slot j < k by the new item, len == min(i+1, k), i+1, no index out of range; history lemma: stored stream positions are pairwise distinct, all < n, prefix in order until the (k+1)-th add.',
     'trusted_base': COMMON_TRUST + ['verus/prelude/rng.rs: gen_range(a..b) in [a, b) (panics on empty range: precondition)',
